@@ -195,11 +195,39 @@ def w_roundtrip(case, opts):
         out["via_callable_nested"] = E.encpy(fresh.eval("giveIn()"))
         out["set_nested"] = E.encpy(fresh.eval("[val, {k: val}, [[val]]]"))
         out["via_method_and_callback"] = E.encpy(fresh.eval("[give.call(null), [1].map(function () { return give(); })[0], (function (f) { return f(); })(give)]"))
+        # ... judged from the SCRIPT's side (a typed description computed by script code), through every route on which the engine
+        # itself calls the exposed callable: directly, call/apply/bind, as the callback of built-ins, as an accessor
+        fresh.set("giveAny", lambda *a: rx(case["v"]))
+        fresh.eval(DESC_JS)
+        out["desc_set"] = fresh.eval("desc(val)")
+        out["desc_routes"] = {}
+        for rn, rsrc in DESC_ROUTES.items():
+            try:
+                out["desc_routes"][rn] = fresh.eval(rsrc)
+            except Exception as e:   # noqa
+                out["desc_routes"][rn] = "EXC:" + type(e).__name__ + ":" + str(e)[:80]
     except Exception as e:
         out["exc"] = [type(e).__name__, str(e)[:200]]
     out["contract_broken"] = list(_C["broken"])
     out["contract_evals"] = _C["evals"]
     return out
+
+
+DESC_JS = ("function desc(v, d) { d = d || 0; if (v === undefined || v === null) { return 'N'; } var t = typeof v; "     # (None arrives as null through set and as undefined as a return value: both are its counterparts)
+           "if (t === 'number') { return 'd:' + (v !== v ? 'NaN' : (v === 0 && 1 / v < 0) ? '-0' : String(v)); } if (t === 'string') { return 's:' + v.length + ':' + v; } "
+           "if (t === 'boolean') { return 'b:' + v; } if (t === 'function') { return 'f'; } "
+           "if (Array.isArray(v)) { var o = []; for (var i = 0; i < v.length; i++) { o.push(d > 6 ? '~' : desc(v[i], d + 1)); } return '[' + o.join(',') + ']'; } "
+           "if (t === 'object') { var ks = Object.keys(v), o2 = []; for (var j = 0; j < ks.length; j++) { o2.push(ks[j] + '=' + (d > 6 ? '~' : desc(v[ks[j]], d + 1))); } return '{' + o2.join(',') + '}'; } "
+           "return '?' + t; }")
+DESC_ROUTES = {
+    "direct": "desc(giveAny())", "call": "desc(giveAny.call(null, 1))", "apply": "desc(giveAny.apply(null, [1, 2]))", "bind": "desc(giveAny.bind(null, 1)())",
+    "map-callback": "desc([7].map(giveAny)[0])", "reduce-callback": "desc([7].reduce(giveAny, 0))", "reduce-noinit": "desc([7, 8].reduce(giveAny))", "reduceRight-callback": "desc([7].reduceRight(giveAny, 0))",
+    "getter": "var og = {}; Object.defineProperty(og, 'p', {get: giveAny, enumerable: true, configurable: true}); desc(og.p)",
+    "getter-inherited": "var op = {}; Object.defineProperty(op, 'p', {get: giveAny, enumerable: true, configurable: true}); desc(Object.create(op).p)",
+    "method": "desc(({m: giveAny}).m(1))", "map-in-map": "desc([[7]].map(function (a) { return a.map(giveAny)[0]; })[0])", "values-of-getter": "var ov = {}; Object.defineProperty(ov, 'p', {get: giveAny, enumerable: true, configurable: true}); desc(Object.values(ov)[0])",
+    "flatMap-wrap": "desc([7].map(function () { return [giveAny()]; })[0][0])", "from-callback": "typeof Array.from === 'function' ? desc(Array.from([7], giveAny)[0]) : desc(val)",
+    "new-Function": "desc(new Function('return giveAny()')())", "eval": "desc((0, eval)('giveAny()'))", "ternary-callback": "desc([7].map(giveAny).concat([])[0])",
+}
 
 
 def w_script_result(case, opts):
@@ -511,6 +539,9 @@ def main(ctx):
                 prob = "returned by an exposed callable: %s, but set + eval: %s" % (short(r.get("via_callable")), short(r.get("set_then_eval")))
             elif r.get("via_callable_nested") != r.get("set_nested"):
                 prob = "returned inside a container by an exposed callable: %s, but set + eval: %s" % (short(r.get("via_callable_nested")), short(r.get("set_nested")))
+            elif any(dv != r.get("desc_set") for dv in (r.get("desc_routes") or {"missing": None}).values()):
+                badr = sorted(k for k, dv in (r.get("desc_routes") or {"missing": None}).items() if dv != r.get("desc_set"))
+                prob = "seen from the script, the value returned through %s is %s, but set + read is %s" % (badr[0], short((r.get("desc_routes") or {}).get(badr[0])), short(r.get("desc_set")))
             elif r.get("via_method_and_callback") != ["l", [r.get("set_then_eval")] * 3]:
                 prob = "returned through call()/callback/indirect call: %s, but set + eval: %s" % (short(r.get("via_method_and_callback")), short(r.get("set_then_eval")))
         if c["v"][0] in ("l", "m"):
